@@ -1,14 +1,274 @@
 /-
-Props/C10.lean — property C10 (work in progress: theorems are being added).
+Props/C10.lean — property C10: blurring, edge and border pixel sets match their definitions for
+every mask.  All theorems quantify over every mask shape and every mask (holes, several
+components, unmasked pixels on the outer row/column included) and every odd kernel shape; they are
+stated about the `Impl` layer of Model/MaskSets.lean (loop transliterations of `mask_2d_util` /
+`derive/*` WITH repair D6), which the driver executes against the Python on every run.
+Conventions: `m.get y x = true` ⇔ pixel (y,x) is masked; pixel arguments are always constrained to
+the frame (`y < m.h`, `x < m.w`) because the totalised `Mask.get` aliases rows beyond it.
 -/
 import Model.MaskSets
+import Proofs.MaskSets
 
 open Model
 
 namespace C10
 
-/-- (d, first part) the native view of the edge set is `native_for_slim` gathered at the slim view. -/
-theorem edge_native_is_gather (m : Mask) :
-    Impl.edgeNative m = (Impl.edgeSlim m).map fun k => (Impl.nativeForSlim m).getD k (0, 0) := rfl
+/-! ## (a) blurring mask -/
+
+/-- (a1) for an odd kernel shape `blurring_from` returns a mask exactly when the kernel footprint
+    of every unmasked pixel lies inside the array; otherwise it raises the "extends beyond the
+    edge" error — never a result. -/
+theorem blurring_defined_iff (m : Mask) {kh kw : Nat} (hkh : kh % 2 = 1) (hkw : kw % 2 = 1) :
+    ((∃ bm, Impl.blurringFrom m kh kw = .ok bm) ↔
+        ∀ p : Nat × Nat, p.1 < m.h → p.2 < m.w → m.get p.1 p.2 = false →
+          Spec.footprintInside m.h m.w kh kw p)
+    ∧ ((¬ ∃ bm, Impl.blurringFrom m kh kw = .ok bm) → Impl.blurringFrom m kh kw = .footprintOutside) := by
+  have hodd : (kh % 2 == 0 || kw % 2 == 0) = false := by simp [hkh, hkw]
+  have hsome := blurringBits_isSome_iff m hkh hkw
+  cases hb : Impl.blurringBits m kh kw with
+  | none =>
+    rw [hb] at hsome
+    have hres : Impl.blurringFrom m kh kw = .footprintOutside := by
+      simp only [Impl.blurringFrom, hodd, hb, Bool.false_eq_true, if_false]
+    rw [hres]
+    refine ⟨⟨fun h => ?_, fun h => ?_⟩, fun _ => rfl⟩
+    · obtain ⟨bm, h⟩ := h; cases h
+    · exact absurd (hsome.mpr h) (by simp)
+  | some b =>
+    rw [hb] at hsome
+    have hres : Impl.blurringFrom m kh kw = .ok { h := m.h, w := m.w, bits := b } := by
+      simp only [Impl.blurringFrom, hodd, hb, Bool.false_eq_true, if_false]
+    rw [hres]
+    exact ⟨⟨fun _ => hsome.mp rfl, fun _ => ⟨_, rfl⟩⟩, fun h => absurd ⟨_, rfl⟩ h⟩
+
+/-- (a2) the blurring mask has the frame's shape and pixel `q` is unmasked in it exactly when `q`
+    is masked in the original mask and lies within the kernel footprint of at least one unmasked
+    pixel. -/
+theorem blurring_unmasks_exactly (m : Mask) {kh kw : Nat} (hkh : kh % 2 = 1) (hkw : kw % 2 = 1)
+    {bm : Mask} (hbm : Impl.blurringFrom m kh kw = .ok bm) :
+    bm.h = m.h ∧ bm.w = m.w ∧ bm.WF ∧
+    ∀ qy qx, qy < m.h → qx < m.w →
+      (bm.get qy qx = false ↔
+        m.get qy qx = true ∧ ∃ p : Nat × Nat, p.1 < m.h ∧ p.2 < m.w ∧ m.get p.1 p.2 = false
+          ∧ Spec.inFootprint kh kw p (qy, qx)) := by
+  have hodd : (kh % 2 == 0 || kw % 2 == 0) = false := by simp [hkh, hkw]
+  unfold Impl.blurringFrom at hbm
+  simp only [hodd, Bool.false_eq_true, if_false] at hbm
+  cases hb : Impl.blurringBits m kh kw with
+  | none => rw [hb] at hbm; cases hbm
+  | some b =>
+    rw [hb] at hbm
+    cases hbm
+    obtain ⟨hlen, hget⟩ := blurringBits_spec m hkh hkw hb
+    exact ⟨rfl, rfl, hlen, fun qy qx hqy hqx => hget qy qx hqy hqx⟩
+
+/-- (a3) the public entry point rejects an even side before anything else. -/
+theorem blurring_even_rejected (m : Mask) {kh kw : Nat} (h : kh % 2 = 0 ∨ kw % 2 = 0) :
+    Impl.blurringFrom m kh kw = .evenKernel := by
+  unfold Impl.blurringFrom
+  rcases h with h | h <;> simp [h]
+
+/-! ## (b) edge pixels -/
+
+/-- (b1) `edge_slim` lists, in strictly ascending order, exactly the slim indices `k` whose pixel
+    `native_for_slim[k]` has one of its eight neighbour positions masked or beyond the array; and
+    `total_edge_pixels_from` is its length. -/
+theorem edge_slim_spec (m : Mask) :
+    (∀ k, k ∈ Impl.edgeSlim m ↔
+      ∃ hk : k < (Impl.nativeForSlim m).length, Spec.isEdge m (Impl.nativeForSlim m)[k])
+    ∧ (Impl.edgeSlim m).Pairwise (· < ·)
+    ∧ Impl.totalEdgePixels m = (Impl.edgeSlim m).length := by
+  refine ⟨fun k => ?_, edgeSlim_pairwise m, totalEdgePixels_eq m⟩
+  rw [mem_edgeSlim]
+  simp only [nativeForSlim_eq]
+  constructor
+  · rintro ⟨hk, he⟩
+    have hmem := mem_unmaskedPixels.mp (List.getElem_mem hk)
+    exact ⟨hk, (checkIfEdgePixel_iff m hmem.1 hmem.2.1).mp he⟩
+  · rintro ⟨hk, he⟩
+    have hmem := mem_unmaskedPixels.mp (List.getElem_mem hk)
+    exact ⟨hk, (checkIfEdgePixel_iff m hmem.1 hmem.2.1).mpr he⟩
+
+/-- (b2) the property's wording.  The edge set (native view) consists of unmasked in-array pixels;
+    it contains every unmasked pixel that has a masked pixel among its eight in-array neighbours;
+    it contains no pixel whose eight neighbours all exist and are unmasked. -/
+theorem edge_contains_and_excludes (m : Mask) (p : Nat × Nat) :
+    (p ∈ Impl.edgeNative m → p.1 < m.h ∧ p.2 < m.w ∧ m.get p.1 p.2 = false)
+    ∧ (p.1 < m.h → p.2 < m.w → m.get p.1 p.2 = false →
+        (∃ q : Nat × Nat, q.1 < m.h ∧ q.2 < m.w ∧ q ≠ p
+          ∧ ((q.1 : Int) - p.1).natAbs ≤ 1 ∧ ((q.2 : Int) - p.2).natAbs ≤ 1 ∧ m.get q.1 q.2 = true) →
+        p ∈ Impl.edgeNative m)
+    ∧ (1 ≤ p.1 → p.1 + 1 < m.h → 1 ≤ p.2 → p.2 + 1 < m.w →
+        (∀ q : Nat × Nat, ((q.1 : Int) - p.1).natAbs ≤ 1 → ((q.2 : Int) - p.2).natAbs ≤ 1 →
+          m.get q.1 q.2 = false) →
+        p ∉ Impl.edgeNative m) := by
+  refine ⟨fun h => ?_, fun h1 h2 h3 h => ?_, fun h1 h2 h3 h4 hall hmem => ?_⟩
+  · have := mem_edgeNative.mp h
+    exact ⟨this.1, this.2.1, this.2.2.1⟩
+  · obtain ⟨q, hq1, hq2, hne, hd1, hd2, hmq⟩ := h
+    refine mem_edgeNative.mpr ⟨h1, h2, h3, (checkIfEdgePixel_iff m h1 h2).mpr ?_⟩
+    refine ⟨(q.1 : Int) - p.1, (q.2 : Int) - p.2, by omega, by omega, by omega, by omega, ?_, Or.inr ?_⟩
+    · by_cases h' : (q.1 : Int) - p.1 = 0
+      · right
+        intro h''
+        apply hne
+        have e1 : q.1 = p.1 := by omega
+        have e2 : q.2 = p.2 := by omega
+        exact Prod.ext e1 e2
+      · exact Or.inl h'
+    · have e1 : ((p.1 : Int) + ((q.1 : Int) - p.1)).toNat = q.1 := by omega
+      have e2 : ((p.2 : Int) + ((q.2 : Int) - p.2)).toNat = q.2 := by omega
+      simp only [e1, e2]
+      exact hmq
+  · have hm := mem_edgeNative.mp hmem
+    obtain ⟨dy, dx, hd1, hd2, hd3, hd4, _, hmz⟩ := (checkIfEdgePixel_iff m hm.1 hm.2.1).mp hm.2.2.2
+    rcases hmz with hout | hmasked
+    · exact hout (by omega)
+    · have := hall (((p.1 : Int) + dy).toNat, ((p.2 : Int) + dx).toNat) (by simp only; omega)
+        (by simp only; omega)
+      simp only at this
+      rw [this] at hmasked
+      exact Bool.noConfusion hmasked
+
+/-! ## (c) border pixels -/
+
+/-- (c) the border set consists of exactly those edge pixels from which a straight walk to the
+    array boundary in at least one of the four axis directions meets only masked pixels; the slim
+    list is the (ascending) sub-list of `edge_slim` selected by that test. -/
+theorem border_iff (m : Mask) :
+    (∀ p, p ∈ Impl.borderNative m ↔ p ∈ Impl.edgeNative m ∧ Spec.clearWalk m p)
+    ∧ (∀ k, k ∈ Impl.borderSlim m ↔
+        k ∈ Impl.edgeSlim m ∧ ∃ hk : k < (Impl.nativeForSlim m).length,
+          Spec.clearWalk m (Impl.nativeForSlim m)[k])
+    ∧ (Impl.borderSlim m).Pairwise (· < ·)
+    ∧ (Impl.borderSlim m).Sublist (Impl.edgeSlim m) := by
+  refine ⟨fun p => ?_, fun k => ?_, borderSlim_pairwise m, ?_⟩
+  · rw [mem_borderNative]
+    constructor
+    · rintro ⟨he, hb⟩
+      have hm := mem_edgeNative.mp he
+      exact ⟨he, (checkIfBorderPixelAt_iff m hm.1 hm.2.1 hm.2.2.1).mp hb⟩
+    · rintro ⟨he, hb⟩
+      have hm := mem_edgeNative.mp he
+      exact ⟨he, (checkIfBorderPixelAt_iff m hm.1 hm.2.1 hm.2.2.1).mpr hb⟩
+  · rw [mem_borderSlim]
+    simp only [nativeForSlim_eq]
+    constructor
+    · rintro ⟨he, hk, hb⟩
+      have hm := mem_unmaskedPixels.mp (List.getElem_mem hk)
+      exact ⟨he, hk, (checkIfBorderPixelAt_iff m hm.1 hm.2.1 hm.2.2).mp hb⟩
+    · rintro ⟨he, hk, hb⟩
+      have hm := mem_unmaskedPixels.mp (List.getElem_mem hk)
+      exact ⟨he, hk, (checkIfBorderPixelAt_iff m hm.1 hm.2.1 hm.2.2).mpr hb⟩
+  · rw [borderSlim_eq]; exact List.filter_sublist
+
+/-! ## (d) the slim-index, native-index, mask and grid views denote the same pixels, in slim order -/
+
+/-- (d1) native views: `edge_native = native_for_slim[edge_slim]` (same for border), listed in
+    ascending row-major order, i.e. slim order. -/
+theorem native_views (m : Mask) :
+    Impl.edgeNative m = (Impl.edgeSlim m).map (fun k => (Impl.nativeForSlim m).getD k (0, 0))
+    ∧ Impl.borderNative m = (Impl.borderSlim m).map (fun k => (Impl.nativeForSlim m).getD k (0, 0))
+    ∧ (Impl.edgeNative m).Pairwise (fun p q => p.1 * m.w + p.2 < q.1 * m.w + q.2)
+    ∧ (Impl.borderNative m).Pairwise (fun p q => p.1 * m.w + p.2 < q.1 * m.w + q.2) := by
+  refine ⟨rfl, rfl, ?_, ?_⟩
+  · exact nativeOfSlim_pairwise m _ (edgeSlim_pairwise m) (fun k hk => (mem_edgeSlim.mp hk).1)
+  · exact nativeOfSlim_pairwise m _ (borderSlim_pairwise m)
+      (fun k hk => (mem_edgeSlim.mp (mem_borderSlim.mp hk).1).1)
+
+/-- (d2) mask views: the edge (border) mask has the frame's shape and is unmasked exactly on the
+    edge (border) pixels. -/
+theorem mask_views (m : Mask) :
+    (Impl.edgeMask m).WF ∧ (Impl.borderMask m).WF
+    ∧ (∀ y x, y < m.h → x < m.w → ((Impl.edgeMask m).get y x = false ↔ (y, x) ∈ Impl.edgeNative m))
+    ∧ (∀ y x, y < m.h → x < m.w →
+        ((Impl.borderMask m).get y x = false ↔ (y, x) ∈ Impl.borderNative m)) := by
+  refine ⟨maskFromNative_wf _ _ _, maskFromNative_wf _ _ _, fun y x hy hx => ?_, fun y x hy hx => ?_⟩
+  · exact maskFromNative_get m.h m.w _ (fun p hp => (mem_edgeNative.mp hp).2.1) hy hx
+  · exact maskFromNative_get m.h m.w _
+      (fun p hp => (mem_edgeNative.mp (mem_borderNative.mp hp).1).2.1) hy hx
+
+/-- (d3) grid views: entry `i` of the edge (border) grid is the pixel-centre coordinate (as
+    `grid_2d_slim_via_mask_from` computes it) of entry `i` of the native view. -/
+theorem grid_views [Add α] [Sub α] [Mul α] [Div α] [Neg α] [NatCast α] [OfNat α 2] [OfNat α 0]
+    (m : Mask) (g : Impl.Geom α) :
+    Impl.gridAt m g (Impl.edgeSlim m) = (Impl.edgeNative m).map (Impl.pixelCentre m.h m.w g)
+    ∧ Impl.gridAt m g (Impl.borderSlim m) = (Impl.borderNative m).map (Impl.pixelCentre m.h m.w g)
+    ∧ Impl.gridSlimViaMask m g = (Impl.nativeForSlim m).map (Impl.pixelCentre m.h m.w g) := by
+  refine ⟨?_, ?_, ?_⟩
+  · exact gridAt_eq m g _ (fun k hk => (mem_edgeSlim.mp hk).1)
+  · exact gridAt_eq m g _ (fun k hk => (mem_edgeSlim.mp (mem_borderSlim.mp hk).1).1)
+  · rw [gridSlimViaMask_eq, nativeForSlim_eq]
+
+/-! ## defect D6 (repaired): the pre-repair loops violate (b) and (d) -/
+
+/-- 2×2 unmasked block in the corner of a 4×4 mask: the pre-repair scan reports slim index 0, which
+    denotes pixel (0,0), while the only pixel it tested was (1,1) (slim index 3); pixels (0,1) and
+    (1,0), which have masked in-array neighbours, are missing.  The repaired loop reports all four. -/
+theorem d6_pre_repair_witness :
+    let m : Mask := ⟨4, 4, [false, false, true, true, false, false, true, true,
+                            true, true, true, true, true, true, true, true]⟩
+    Impl.edgeSlimAsIs m = [0]
+    ∧ Impl.nativeForSlim m = [(0, 0), (0, 1), (1, 0), (1, 1)]
+    ∧ Impl.edgeSlim m = [0, 1, 2, 3]
+    ∧ Impl.borderSlim m = [0, 1, 2, 3] := by
+  decide
+
+/-! ## non-vacuity -/
+
+/-- an annulus-like 5×5 mask touching the frame on the left: hypotheses of (a)–(d) are met with
+    non-trivial sets (edge ≠ border ≠ all unmasked). -/
+example :
+    let m : Mask := ⟨5, 5, [true, true, true, true, true,
+                            false, false, false, false, true,
+                            true, false, true, false, true,
+                            true, false, false, false, true,
+                            true, true, true, true, true]⟩
+    Impl.edgeSlim m = [0, 1, 2, 3, 4, 5, 6, 7, 8]
+    ∧ Impl.borderSlim m = [0, 1, 2, 3, 4, 5, 6, 7, 8]
+    ∧ Impl.edgeNative m = [(1, 0), (1, 1), (1, 2), (1, 3), (2, 1), (2, 3), (3, 1), (3, 2), (3, 3)] := by
+  decide
+
+example :
+    let m : Mask := ⟨7, 7, [true, true, true, true, true, true, true,
+                            true, false, false, false, false, false, true,
+                            true, false, false, false, false, false, true,
+                            true, false, false, true, false, false, true,
+                            true, false, false, false, false, false, true,
+                            true, false, false, false, false, false, true,
+                            true, true, true, true, true, true, true]⟩
+    Impl.edgeSlim m = List.range 24
+    ∧ Impl.borderSlim m = [0, 1, 2, 3, 4, 5, 9, 10, 13, 14, 18, 19, 20, 21, 22, 23] := by
+  decide
+
+/-- the docstring example: 3×3 block, the centre (slim index 4) is not an edge pixel. -/
+example :
+    let m : Mask := ⟨5, 5, [true, true, true, true, true,
+                            true, false, false, false, true,
+                            true, false, false, false, true,
+                            true, false, false, false, true,
+                            true, true, true, true, true]⟩
+    Impl.edgeSlim m = [0, 1, 2, 3, 5, 6, 7, 8] ∧ Impl.borderSlim m = [0, 1, 2, 3, 5, 6, 7, 8]
+    ∧ (Impl.edgeMask m).bits = [true, true, true, true, true,
+                                true, false, false, false, true,
+                                true, false, true, false, true,
+                                true, false, false, false, true,
+                                true, true, true, true, true] := by
+  decide
+
+/-- a (3,5) kernel on a single unmasked pixel: defined, and unmasks the 3×5 window minus the pixel;
+    a (5,3) kernel on a pixel one row from the top: the error. -/
+example :
+    let m : Mask := ⟨5, 7, (List.replicate 17 true) ++ [false] ++ (List.replicate 17 true)⟩
+    (∃ bm, Impl.blurringFrom m 3 5 = .ok bm ∧
+      bm.bits = [true, true, true, true, true, true, true,
+                 true, false, false, false, false, false, true,
+                 true, false, false, true, false, false, true,
+                 true, false, false, false, false, false, true,
+                 true, true, true, true, true, true, true])
+    ∧ Impl.blurringFrom ⟨5, 5, (List.replicate 6 true) ++ [false] ++ (List.replicate 18 true)⟩ 5 3
+        = .footprintOutside := by
+  refine ⟨⟨_, rfl, ?_⟩, ?_⟩ <;> decide
 
 end C10
